@@ -242,6 +242,23 @@ class MultiFit(FitBase):
                 _cost_functions.append(_fit_i._cost_function)
                 _cost_names.append("cost%s" % _i)
 
+        # The shared cost function replaces the chi2 of the members above but not the cost of their parameter constraints.
+        _member_constraint_names = []
+        for _i in _fit_index_to_data_index:
+            for _node_name in ("parameter_values", "parameter_constraints"):
+                self._nexus.add(Alias(ref=self._fits[_i]._nexus.get(_node_name), name="%s%s" % (_node_name, _i)), add_children=False)
+                _member_constraint_names.append("%s%s" % (_node_name, _i))
+
+        def _member_constraint_cost(*values_and_constraints):
+            _cost = 0.0
+            for _par_vals, _par_constraints in zip(values_and_constraints[::2], values_and_constraints[1::2]):
+                for _par_constraint in _par_constraints:
+                    _cost += _par_constraint.cost(_par_vals)
+            return _cost
+
+        self._nexus.add_function(_member_constraint_cost, func_name="member_constraint_cost", par_names=_member_constraint_names)
+        _cost_names.append("member_constraint_cost")
+
         # Combines 1-dimensional properties by concatenating them.
         def _combine_1d_property(*single_fit_properties):
             _combined_property = np.zeros(shape=_data_indices[-1])
